@@ -709,17 +709,26 @@ def catalog():
                           {"k": "union", "name": "u4", "swty": "color", "swvar": "disc", "arms": [
                               {"labels": ["RED"], "body": None}, {"labels": ["BLUE"], "body": {"ty": "double", "name": "a", "arr": None}}]}])
     # arm order: a default arm first and in the middle, a void arm first, the labels of a fall-through group in descending order
-    spec("union:arm-order", [
+    # (one specification per union: a change that makes one of them uncompilable must not hide the others)
+    spec("union:arm-order:default-first", [
         {"k": "union", "name": "dfirst", "swty": "int", "swvar": "d", "arms": [
             {"default": True, "labels": [], "body": {"ty": "hyper", "name": "h", "arr": None}}, {"labels": ["1"], "body": {"ty": "int", "name": "a", "arr": None}},
             {"labels": ["2"], "body": "void"}]},
+        {"k": "struct", "name": "orders1", "fields": [{"ty": "dfirst", "name": "a", "arr": ["var", ""], "opt": False}, {"ty": "int", "name": "tail", "arr": None, "opt": False}]}])
+    spec("union:arm-order:default-middle", [
         {"k": "union", "name": "dmid", "swty": "unsigned int", "swvar": "d", "arms": [
             {"labels": ["9", "5", "1"], "body": {"ty": "inner", "name": "a", "arr": None}}, {"default": True, "labels": [], "body": "void"},
             {"labels": ["8", "7"], "body": {"ty": "string", "name": "s", "arr": None}}]},
+        {"k": "struct", "name": "orders2", "fields": [{"ty": "dmid", "name": "b", "arr": ["fixed", "2"], "opt": False}]}])
+    spec("union:arm-order:data-default-middle", [
+        {"k": "union", "name": "ddmid", "swty": "int", "swvar": "d", "arms": [
+            {"labels": ["3"], "body": {"ty": "int", "name": "a", "arr": None}}, {"default": True, "labels": [], "body": {"ty": "unsigned int", "name": "dflt", "arr": None}},
+            {"labels": ["2"], "body": {"ty": "hyper", "name": "b", "arr": None}}, {"labels": ["4"], "body": "void"}]},
+        {"k": "typedef", "ty": "ddmid", "name": "ddmids", "arr": ["var", ""]}])
+    spec("union:arm-order:void-first", [
         {"k": "union", "name": "vfirst", "swty": "color", "swvar": "c", "arms": [
             {"labels": ["BLUE"], "body": "void"}, {"labels": ["GREEN", "RED"], "body": {"ty": "sel", "name": "x", "arr": None}}]},
-        {"k": "struct", "name": "orders", "fields": [{"ty": "dfirst", "name": "a", "arr": ["var", ""], "opt": False}, {"ty": "dmid", "name": "b", "arr": ["fixed", "2"], "opt": False},
-                                                     {"ty": "vfirst", "name": "c", "arr": None, "opt": True}]}])
+        {"k": "struct", "name": "orders3", "fields": [{"ty": "vfirst", "name": "c", "arr": None, "opt": True}]}])
     # optional links to every kind of named type (struct, union, enum, typedefs of each, typedef of opaque)
     spec("optional:targets", [
         {"k": "typedef", "ty": "color", "name": "tcolor", "arr": None}, {"k": "typedef", "ty": "sel", "name": "tsel", "arr": None},
